@@ -12,11 +12,11 @@ import (
 // it may read; Top means "unknown" (a call through a function value or into
 // unmodelled external code).
 type Effects struct {
-	Writes map[string]Sort
-	Allocs map[string]Sort
-	Reads  map[string]Sort
-	Top    bool
-	calls  map[*types.Func]bool
+	Writes   map[string]Sort
+	Allocs   map[string]Sort
+	Reads    map[string]Sort
+	Top      bool
+	calls    map[*types.Func]bool
 	rawCalls map[*types.Func]bool
 }
 
@@ -485,6 +485,14 @@ func (p *Prog) computeEffects() {
 		c := &effCollector{p: p, info: fi.Pkg.TypesInfo, eff: newEffects()}
 		for _, m := range fi.Modifies {
 			m = ast.Unparen(m)
+			if call, ok := m.(*ast.CallExpr); ok && markerName(call) == "__heapof" {
+				if t := c.typeOf(call.Args[0]); t != nil {
+					if pt, ok := t.Underlying().(*types.Pointer); ok {
+						c.cellHeaps(pt.Elem(), c.eff.Writes)
+					}
+				}
+				continue
+			}
 			if call, ok := m.(*ast.CallExpr); ok && markerName(call) == "__elems" {
 				if t := c.typeOf(call.Args[0]); t != nil {
 					if sl, ok := t.Underlying().(*types.Slice); ok {
